@@ -1,10 +1,12 @@
 #!/bin/bash
 # tryseed.sh <Cxx> <patch.diff> [tier] — run ./check against a scratch worktree of /repo with the patch applied
+# (SEED_VERIF=<copy of /verif> runs the checks from that copy, leaving /verif alone)
 pid=$1; patch=$2; tier=${3:-quick}
+V=${SEED_VERIF:-/verif}
 wt=/tmp/wtx/try-$$
 mkdir -p /tmp/wtx
 git -C /repo worktree add --detach $wt HEAD -q || exit 3
 git -C $wt apply $patch || { git -C /repo worktree remove --force $wt; exit 3; }
-cd /verif && VERIF_REPO=$wt ./check $pid $tier 2>&1 | tail -3
+cd $V && VERIF_REPO=$wt ./check $pid $tier 2>&1 | grep -A2 "VIOLATION\|^\[check\]" | cut -c1-500
 git -C /repo worktree remove --force $wt
 ./check $pid quick > /dev/null 2>&1   # restore generated files / evidence of the unchanged tree
